@@ -45,6 +45,8 @@ def instances(tier, seed):
     add("terms:CH->CF:M1:structure-bonds-no-table-x-pattern-no-bonds", pattern='CH->C', N=3, M=1, s_rows={}, terms={'bond': 1}, cost=3)
     add("terms:chain:CH->CF-then-CH->NOO", pattern='CH->CF', pattern2='CH->NOO', N=4, M=1, s_rows={'bond': 2, 'angle': 2},
         terms={'bond': 1}, cost=60)
+    # end to end (real find): partial replacement, the drawn subset in any order, pattern bond between retained and inserted atom
+    add("e2e:S2:chiral4->CHSP:fraction0.9:pattern-bond", family='e2e', struct='S2', repl='chiral4->CHSP', axes=[1], other=(0.2, 0, 0.6), fraction=0.9, pattern_terms=True, cost=60)
     # documented workflow: structure from CIF (atom types, no pair-coefficient table) + parameterised pattern
     add("terms:cif-structure:CH->CF:M1", family='cif-structure-no-pair-table', pattern='CH->CF', N=3, M=1, s_pair=False,
         s_rows={}, cost=3)
@@ -63,6 +65,11 @@ def instances(tier, seed):
 
 
 def body(ctx, p):
+    if p.get('family') == 'e2e':
+        from harness import replace_e2e
+        R = replace_e2e.run_e2e(ctx, p)
+        replace_e2e.check_placement(ctx, p, R)
+        return
     R = run_replace(ctx, p)
     with core.nosimplify():
         ok = check_terms(ctx, p, R, label='')
